@@ -54,6 +54,8 @@ structure St where
   subs : List Sub           -- in the (arbitrary but fixed) iteration order of the map
   closedIds : List Nat      -- subscriptions whose Unsubscribe returned (entry deleted, channel closed)
   blocked : Bool            -- the loop is stuck inside dispatch
+  exited : Bool := false    -- the store stream's channel was closed (watch failed / context ended): the
+                            -- goroutine has returned and `sync.Once` never starts it again
   deriving Repr, DecidableEq
 
 /-- deliver `status` in map order; stops (blocked = true) at the first subscriber that neither
@@ -74,12 +76,14 @@ inductive Ev where
   | update (addrs : List Addr)   -- the store stream delivers a new endpoint set
   | tick
   | unsub (id : Nat)             -- some goroutine calls Unsubscribe(id)
+  | closed                       -- the store stream closes its channel (`watch failed`, `resp.Err()`, ctx done)
   deriving Repr, DecidableEq
 
 /-- one turn of the loop; when the loop is stuck nothing is ever selected again -/
 def turn (st : St) (ev : Ev) : St :=
-  if st.blocked then st else
+  if st.blocked || st.exited then st else
   match ev with
+  | .closed => { st with exited := true }
   | .update a =>
     let r := dispatch a st.subs
     { st with latest := a, subs := r.1, blocked := r.2 }
@@ -92,6 +96,16 @@ def turn (st : St) (ev : Ev) : St :=
     { st with subs := r.1, blocked := r.2, closedIds := if gone.isEmpty then st.closedIds else id :: st.closedIds }
 
 def run (st : St) (evs : List Ev) : St := evs.foldl turn st
+
+/-- state right after `helium.New`: no subscriber, `latestStatus` is the zero value (no address,
+interval 0) until the stream's initial snapshot arrives — a tick that comes first dispatches it -/
+def St.init : St := { latest := [], subs := [], closedIds := [], blocked := false }
+
+/-- the address set of the last `update` event (the loop's `latestStatus` afterwards) -/
+def lastUpdate (latest : List Addr) : List Ev → List Addr
+  | [] => latest
+  | .update a :: r => lastUpdate a r
+  | _ :: r => lastUpdate latest r
 
 /-- Subscribe: a new entry in the map (position arbitrary: `pos`) -/
 def subscribe (st : St) (s : Sub) (pos : Nat) : St :=
